@@ -6,3 +6,4 @@ import Dicom.Props.C11
 #print axioms Dicom.C11.get_scu_iff
 #print axioms Dicom.C11.get_scu_value
 #print axioms Dicom.C11.usable_eq_accepted
+#print axioms Dicom.C11.negotiation_agreement
